@@ -128,6 +128,13 @@ def targets(ctx):
                     back2 = cls().from_json(m.to_json(casing=casing))
                     if getattr(back2, py) != 7:
                         out.append(("json_text_roundtrip_drops_field", casing_name, f"{n!r}: field {py!r} key {key!r}"))
+                    # the python-dict twins of to_dict / from_dict use the same key mapping
+                    pd = m.to_pydict(casing)
+                    if key not in pd:
+                        out.append(("to_pydict_key_differs", casing_name, f"{n!r}: to_dict key {key!r}, to_pydict keys {sorted(pd)}"))
+                    back3 = cls().from_pydict(pd)
+                    if getattr(back3, py) != 7:
+                        out.append(("pydict_key_not_mapped_back", casing_name, f"proto name {n!r}: field {py!r} -> from_pydict(to_pydict()) drops it (keys {sorted(pd)})"))
                 back = cls().from_dict({n: 7})
                 if getattr(back, py) != 7:
                     out.append(("proto_name_not_mapped", "-", f"from_dict({{{n!r}: 7}}) does not set field {py!r}"))
